@@ -7,6 +7,7 @@ import re
 from ..absint import Const, Obj, Tup, explore, vkey
 from ..core import Unrecognised
 from ..lin import Lin
+from . import builder_rules
 from ..repo import chain, params, src, strip_docstring, calls, assigning_stmts
 from ..tables import Bool, Sign, check_table, SKIP
 
@@ -384,8 +385,9 @@ def r5_defaults(repo, report):
         if r.exit[0] == "raise":
             return "raise"
         k = vkey(r.exit[1]) if r.exit[0] == "return" else r.exit[0]
-        fr = re.search(r"front_required=(COPY@\d+)\([^)]*\)\.pop\('required', (True|False)\)", k)
-        br = re.search(r"back_required=(COPY@\d+)\([^)]*\)\.pop\('required', (True|False)\)", k)
+        ta = builder_rules.term_args(repo, k)
+        fr = re.match(r"(COPY@\d+)\([^)]*\)\.pop\('required', (True|False)\)$", str(ta.get("front_required", "")))
+        br = re.match(r"(COPY@\d+)\([^)]*\)\.pop\('required', (True|False)\)$", str(ta.get("back_required", "")))
         if not fr or not br:
             return f"shape:{k[:200]}"
         return (fr.group(2), br.group(2))
@@ -425,12 +427,13 @@ def r5_defaults(repo, report):
         if len(fcopy) != 1 or len(bcopy) != 1 or fcopy == bcopy:
             bad.append(("parameter copies", copies))
             continue
-        fm = re.search(r"front_adapter=CLASS\(([^)]*\))\)\(([^,]*), name='linked_front', \*\*([^=]*?\)\))?", k)
-        if f"front_required={fcopy[0]}.pop('required'" not in k or f"back_required={bcopy[0]}.pop('required'" not in k:
+        ta = builder_rules.term_args(repo, k)
+        fa, ba = str(ta.get("front_adapter", "")), str(ta.get("back_adapter", ""))
+        if not str(ta.get("front_required", "")).startswith(f"{fcopy[0]}.pop('required'") or not str(ta.get("back_required", "")).startswith(f"{bcopy[0]}.pop('required'"):
             bad.append(("required popped from the wrong side", k[:300]))
-        if f"front_adapter=CLASS({FS})({FS}.sequence" not in k or f"**{fcopy[0]}" not in k.split("back_adapter=")[0].split("front_adapter=")[1]:
+        if not fa.startswith(f"CLASS({FS})({FS}.sequence") or f"**{fcopy[0]}" not in fa:
             bad.append(("front adapter ingredients", k[:300]))
-        if f"back_adapter=CLASS({BS})({BS}.sequence" not in k or f"**{bcopy[0]}" not in k.split("back_adapter=")[1].split("front_required=")[0]:
+        if not ba.startswith(f"CLASS({BS})({BS}.sequence") or f"**{bcopy[0]}" not in ba:
             bad.append(("back adapter ingredients", k[:300]))
         if not all(c.endswith(f"({ps[4].upper()})") for c in (fcopy[0], bcopy[0])):
             bad.append(("copies are not copies of the global search parameters", copies))
